@@ -64,6 +64,11 @@ def str_method(models, ex, obj, name, args, kwargs, st, node):
         return [Val(SStr(LOWER(s)), st)]
     if name == "strip" and not args:
         return sym_strip(ex, obj, st, node)
+    if name == "strip" and len(args) == 1 and isinstance(args[0], str) and not kwargs:
+        # A-str: s.strip(chars) is an (uninterpreted) function of s and chars whose result is a substring of s
+        t = PY_STRIP_CHARS(s, z3.StringVal(args[0]))
+        st.assume(z3.Contains(s, t))
+        return [Val(SStr(t), st)]
     if name == "split" and len(args) == 2 and isinstance(args[0], str) and args[0] and args[1] == 1:
         return sym_split_once(ex, obj, args[0], st, node)
     if name == "split" and len(args) == 1 and not kwargs:
@@ -271,6 +276,7 @@ def sym_strip(ex, obj, st, node):
 
 # the lines of a text are an opaque value at file level (z3's sequence theory is incomplete for
 # uninterpreted functions over Seq(String)); indexable lines are used only inside rewrite_lines
+PY_STRIP_CHARS = z3.Function("py_strip_chars", z3.StringSort(), z3.StringSort(), z3.StringSort())
 LINES = V.opaque_sort("Lines")
 PY_SPLIT = z3.Function("py_split", z3.StringSort(), z3.StringSort(), LINES)
 PY_JOIN = z3.Function("py_join", z3.StringSort(), LINES, z3.StringSort())
